@@ -248,6 +248,7 @@ def run(ck, facts, tier):
     sites = []
     for f in sorted(fns, key=lambda x: x.id):
         sites += panics.sites_of(f)
+    panics.controls(ck, "R14.3")
     panics.classify(facts, sites, {})
     for s in sites:
         if s.kind == "validator-call":
